@@ -36,6 +36,10 @@ pub struct FillStep {
     pub len: usize,
     /// 0 = `fill_interleaved`, n = `fill_le_bytes(.., n)`
     pub bps: usize,
+    /// (buffer cases) this block belongs to a stream of another sample width than the case's: the buffer
+    /// object is recycled between streams. The frame is encoded, and its reference made, with that width.
+    #[serde(default, skip_serializing_if = "Option::is_none")]
+    pub bits: Option<usize>,
 }
 
 #[derive(Serialize, Deserialize, Clone, Debug, PartialEq)]
@@ -233,9 +237,11 @@ fn exec_framebuf(
             let c = fb.clone();
             fb = c;
         }
-        let block = gen_block(&mut r, bits, st.len * channels);
+        let step_bits = st.bits.unwrap_or(bits);
+        let si = if step_bits == bits { si.clone() } else { StreamInfo::new(44100, channels, step_bits).map_err(|e| format!("HARNESS: stream info: {e}"))? };
+        let block = gen_block(&mut r, step_bits, st.len * channels);
         let res = pan::catch(|| {
-            if via_tuple && (st.bps == 0 || st.bps == ctx.bytes_per_sample()) {
+            if via_tuple && step_bits == bits && (st.bps == 0 || st.bps == ctx.bytes_per_sample()) {
                 let mut t = (&mut fb, &mut ctx);
                 do_fill_at(&mut t, &block, st.bps, (i * 3 + 1) % 8)
             } else {
@@ -394,6 +400,7 @@ fn gen_steps(r: &mut Rng, cap: usize, bps_choices: &[usize]) -> Vec<FillStep> {
         steps.push(FillStep {
             len,
             bps: *r.pick(bps_choices),
+            bits: None,
         });
     }
     steps
@@ -433,13 +440,26 @@ pub fn gen_case(seed: u64, index: u64) -> Case {
                 cfg.use_lpc = false;
                 cfg.use_fixed = false;
             }
+            let mut steps = gen_steps(&mut r, capacity, &choices);
+            // a buffer recycled between streams of different widths (verbatim / constant configurations only:
+            // they expose the buffer directly and stay cheap at every width)
+            if !cfg.use_lpc && !cfg.use_fixed && r.chance(0.4) {
+                for st in steps.iter_mut().skip(1) {
+                    if r.chance(0.6) {
+                        let b = *r.pick(BITS);
+                        let g = (b + 7) / 8;
+                        st.bits = Some(b);
+                        st.bps = if r.chance(0.5) { 0 } else { g + r.below(5 - g) };
+                    }
+                }
+            }
             Case::FrameBuf {
                 channels,
                 bits,
                 capacity,
                 cfg,
                 data_seed: r.next_u64(),
-                steps: gen_steps(&mut r, capacity, &choices),
+                steps,
                 via_tuple: r.chance(0.4),
                 resize_from: if r.chance(0.25) { Some(*r.pick(CAPS)).filter(|f| *f != capacity) } else { None },
             }
